@@ -19,9 +19,9 @@ def fault_list(counts, tier, rnd):
     out = []
     for (kind, sel), n in counts.items():
         for k in range(1, n + 1):
-            acts = ERRS + (SHORTS if kind in "rw" else [])
+            acts = ERRS + (SHORTS if kind in "rw" else []) + ([0] if kind == "r" else [])     # (a read that returns 0: the file stops there)
             if tier == "quick" and n > 12 and k not in (1, 2, n // 2, n - 1, n):
-                acts = [rnd.choice(ERRS)] + ([rnd.choice(SHORTS)] if kind in "rw" else [])
+                acts = [rnd.choice(ERRS)] + ([rnd.choice(SHORTS)] if kind in "rw" else []) + ([0] if kind == "r" else [])
             for a in acts:
                 out.append((kind, sel, k, a))
             # double faults: a short write followed by a failing / short / zero retry (write_data retries once), a short read
@@ -109,9 +109,10 @@ def writer_family(ck, rnd, tier, wd, trace, owner, scripts_by):
 # ---------------------------------------------------------------- reader / validate
 def reader_family(ck, rnd, tier, wd, trace, owner, scripts_by):
     files = []
-    for i, (comp, dic, sizes) in enumerate([(2, True, [300, 200, 500]), (0, False, [40000, 33000, 100]), (2, False, [70000, 10])]):
+    for i, (comp, dic, sizes) in enumerate([(2, True, [300, 200, 500]), (0, False, [40000, 33000, 100]), (2, False, [70000, 10]), (2, False, [900, 700, 800, 600]), (0, False, [5000, 3000, 4000])]):
         ch = [corpus.text(rnd, 30) if dic else b""] + [corpus.text(rnd, n) for n in sizes]
-        buf = ref.build_file(ch, comp_type=comp, hash_type=1, chunk_hash_type=3, level=3)[0]
+        # (the last two carry uncompressed-source checksums: such files have no whole-data checksum to fall back on)
+        buf = ref.build_file(ch, comp_type=comp, hash_type=1, chunk_hash_type=3 if i < 3 else 1, level=3, flags=0 if i < 3 else 4)[0]
         p = os.path.join(wd, "r%d.zck" % i); open(p, "wb").write(buf); files.append((i, p, buf))
     jobs = []
     for (i, p, buf) in files:
@@ -429,6 +430,12 @@ def ctx_family(ck, rnd, tier, wd):
     hists = common.tlc_printed_json(r, "BEH")
     if len(hists) < 500:
         raise Broken("MC_Ctx printed only %d histories" % len(hists))
+    rr = common.tlc("MC_Ctx", "MC_CtxRecover.cfg", workers=4, timeout=600)
+    ck.require_ok("MC_Ctx/Recover", rr); ck.add_tlc("MC_Ctx (recovery shape: a faulted call, clear_error, more calls, close; up to 5 calls)", rr)
+    rec = common.tlc_printed_json(rr, "BEH")
+    if len(rec) < 100:
+        raise Broken("MC_CtxRecover printed only %d histories" % len(rec))
+    hists += rec
     if tier == "thorough":
         cfg4 = os.path.join(wd, "MC_Ctx4.cfg"); open(cfg4, "w").write(open(os.path.join(common.SPEC, "MC_Ctx.cfg")).read().replace("MaxOps = 3", "MaxOps = 4"))
         r4 = common.tlc("MC_Ctx", cfg4, workers=1, timeout=900); ck.require_ok("MC_Ctx/4", r4); ck.add_tlc("MC_Ctx (MaxOps=4)", r4)
@@ -438,7 +445,7 @@ def ctx_family(ck, rnd, tier, wd):
     gp = os.path.join(wd, "ctx-good.zck"); open(gp, "wb").write(good)
     data = corpus.text(rnd, 100).hex()
     W = {"optcomp": (["ioption 0 100 0"], "W", "ioption"), "optval": (["ioption 0 3 77"], "R", "ioption"), "write": (["write 0 hex:" + data], "W", "write"),
-         "writeF": (["shim_fault_next w -2 5", "write 0 hex:" + data], "W", "write"), "endchunk": (["end_chunk 0"], "W", "end_chunk"),
+         "writeF": (["shim_fault_next w -2 5", "write 0 hex:" + data], "W", "write"), "endchunk": (["end_chunk 0"], "W", "end_chunk"), "endchunkF": (["shim_fault_next w -2 5", "end_chunk 0"], "W", "end_chunk"),
          "close": (["close 0"], "X", "close"), "closeF": (["shim_fault_next w 0 28", "close 0"], "X", "close"), "read": (["readx 0 10"], "R", "read"),
          "clear": (["clear_error 0"], "-", "clear_error"), "readF": (["shim_fault_next r 0 5", "readx 0 50"], "R", "read"),
          "validate": (["validate_checksums 0"], "R", "validate_checksums"), "validateF": (["shim_fault_next r 0 5", "validate_checksums 0"], "R", "validate_checksums")}
@@ -458,8 +465,27 @@ def ctx_family(ck, rnd, tier, wd):
         cases.append((cid, h, "\n".join(L) + "\n"))
     evs = common.by_case([e for part in common.run_driver_parallel(["".join(c[2] for c in cases[k::12]) for k in range(12)], "plain", timeout=1200) for e in part])
     trace = []; owner = []
+    wtrace = []; wowner = []          # the same write-mode executions as Writer-contract events (what a successful close left behind)
+    raw = bytes.fromhex(data)
     for (cid, h, scr) in cases:
         ce = evs.get(cid, [])
+        if h["mode"] == "write" and not any(e["op"] in ("Crash", "Hang") for e in ce):
+            wtrace.append({"op": "wstart", "case": "context history " + "/".join(h["ops"])}); wowner.append(cid)
+            nok = nfail = 0
+            for e in ce:
+                if e["op"] == "write":
+                    wtrace.append({"op": "write", "n": e["n"], "ret": e["ret"]}); wowner.append(cid)
+                    if e["ret"] == e["n"]: nok += 1
+                    else: nfail += 1
+                elif e["op"] == "end_chunk":
+                    wtrace.append({"op": "endchunk", "ret": e["ret"]}); wowner.append(cid)
+                elif e["op"] == "close":
+                    outp = os.path.join(wd, cid + ".zck")
+                    rf = ref.RefFile(open(outp, "rb").read() if os.path.exists(outp) else b"")
+                    some = rf.content is not None and any(rf.content == raw * k for k in range(nok, nok + nfail + 1))
+                    wtrace.append({"op": "wclosex", "ret": e["ret"], "f": {"valid": bool(rf.valid_strict), "contentSome": bool(some), "writesOk": nok, "writesFailed": nfail,
+                                                                            "total": len(rf.content) if rf.content is not None else -1}}); wowner.append(cid)
+                    break
         if any(e["op"] in ("Crash", "Hang") for e in ce):
             trace.append({"op": "reset"}); owner.append(cid); trace.append({"op": "Crash"}); owner.append(cid); continue
         trace.append({"op": "reset"}); owner.append(cid)
@@ -487,6 +513,8 @@ def ctx_family(ck, rnd, tier, wd):
         raise Broken("only %d armed faults fired in the context histories" % nfired)
     ck.extra["ctx_histories"] = len(cases); ck.extra["ctx_calls_with_fired_fault"] = nfired
     validate_segments(ck, "C12", trace, owner, wd, scripts_by=scripts_by, module="Trace_Ctx", cfg="Trace_Ctx.cfg", start_ops=("reset",))
+    validate_segments(ck, "C12", wtrace, wowner, wd, scripts_by=scripts_by, module="Trace_Writer", cfg="Trace_Writer.cfg", start_ops=("wstart",))
+    ck.extra["ctx_closes_judged"] = sum(1 for t in wtrace if t["op"] == "wclosex")
     # the whole life-cycle contract: deviations are specification drift (beyond the listed properties), recorded only
     drift = Check.__new__(Check); drift.__dict__.update({"violations": [], "states": 0, "transitions": 0, "traces": 0, "models": [], "prop": "C12"})
     drift.violation = lambda what, script_text=None, extra=None: drift.violations.append(what)
